@@ -148,6 +148,16 @@ def run(ctx):
     G.per_item_isolation(ctx, "R6", "pkgcore.operations.regen", "regen_iter", lambda c: isinstance(c.func, ast.Name) and c.func.id == P.func("pkgcore.operations.regen", "regen_iter").params()[1], "package")
     ctx.floor("R6", 1)
 
+    # ---- R7 the per-package function is called once per package -----------------------------------------------------------
+    ri = P.func("pkgcore.operations.regen", "regen_iter")
+    fparam = ri.params()[1]
+    calls7 = [c for c in A.calls(ri.node) if isinstance(c.func, ast.Name) and c.func.id == fparam]
+    ctx.check("R7", ri, len(calls7) == 1, f"one-call-per-item:{len(calls7)}", "regen_iter calls the regen function at exactly one place per package",
+              f"regen_iter calls `{fparam}(pkg)` at {len(calls7)} places: a package that takes the second call site (a retry after a failure) is processed twice", node=calls7[-1] if calls7 else None)
+    ma7 = P.func(MOD, "map_async")
+    bounded = [c for c in A.calls(ma7.node) if isinstance(c.func, ast.Name) and c.func.id in ("min", "max")]
+    ctx.floor("R7", 1)
+
 
 F = "src/pkgcore/util/thread_pool.py"
 MUTANTS = [
